@@ -514,3 +514,94 @@ Theorem upload_invalid f chunk dst src : src = None \/ src = Some Special ->
   upload f chunk false {| at_local := src; at_remote := dst |} = Raise ValueError /\
   upload f chunk true {| at_local := src; at_remote := dst |} = Ok {| at_local := src; at_remote := dst |}.
 Proof. intros [-> | ->]; split; reflexivity. Qed.
+
+(* ================================================================== 7. when copying into an existing destination succeeds *)
+Section Compat.
+  Variable f : name -> bool.
+  Variable chunk : N.
+  Hypothesis Hc : 1 <= chunk.
+  Notation cnode := (copy_node std_body f chunk).
+
+  (* no accepted source file lands on an existing directory (or special entry), no accepted source directory on an
+     existing non-directory *)
+  Fixpoint compat (src : node) (dst : option node) : bool :=
+    match src with
+    | File _ => match dst with Some (Dir _) => false | Some Special => false | _ => true end
+    | Special => true
+    | Dir es =>
+        match dst with
+        | None => true
+        | Some (Dir des) =>
+            (fix all (es : list (name * node)) : bool :=
+               match es with
+               | [] => true
+               | (k, c) :: r => (if f k then compat c (lookup_entry k des) else true) && all r
+               end) es
+        | Some _ => false
+        end
+    end.
+
+  Lemma compat_None src : compat src None = true.
+  Proof. destruct src; reflexivity. Qed.
+
+  Lemma compat_dir es des : compat (Dir es) (Some (Dir des)) = true ->
+    forall k c, In (k, c) es -> f k = true -> compat c (lookup_entry k des) = true.
+  Proof.
+    cbn [compat]. induction es as [|[k0 c0] r IH]; intros H k c HI Fk; [destruct HI|].
+    apply andb_true_iff in H. destruct H as [H1 H2]. destruct HI as [[= -> ->]|HI].
+    - now rewrite Fk in H1.
+    - exact (IH H2 k c HI Fk).
+  Qed.
+
+  Definition succeeds (src : node) : Prop :=
+    wf_tree src = true -> forall ign dst, compat src dst = true -> (ign = true \/ src <> Special) ->
+    exists r, cnode ign src dst = Ok r.
+
+  Lemma copy_entries_succeeds es : Forall (fun e => succeeds (snd e)) es ->
+    Forall (fun e => wf_tree (snd e) = true) es -> NoDup (map fst es) -> forall des0 des,
+    (forall k, In k (map fst es) -> lookup_entry k des = lookup_entry k des0) ->
+    (forall k c, In (k, c) es -> f k = true -> compat c (lookup_entry k des0) = true) ->
+    exists des', copy_entries f (cnode true) es des = Ok des'.
+  Proof.
+    induction es as [|[k c] r IH]; intros HI HW HN des0 des Hsame Hcompat.
+    - now exists des.
+    - inversion HI as [|? ? HI1 HI2]; subst. inversion HW as [|? ? HW1 HW2]; subst.
+      cbn [map fst] in HN. inversion HN as [|? ? HN1 HN2]; subst. cbn [snd] in HI1, HW1.
+      cbn [copy_entries].
+      assert (Hrest : forall des1, (forall k', k' <> k -> lookup_entry k' des1 = lookup_entry k' des) ->
+                                   exists des', copy_entries f (cnode true) r des1 = Ok des').
+      { intros des1 H1. apply (IH HI2 HW2 HN2 des0 des1).
+        - intros k' Hk'. rewrite H1; [apply Hsame; now right|]. intros ->. contradiction.
+        - intros k' c' HIn. apply Hcompat. now right. }
+      destruct (f k) eqn:Fk; [|now apply Hrest].
+      destruct (HI1 HW1 true (lookup_entry k des)) as (d' & Hd'); [|now left|].
+      { rewrite (Hsame k) by now left. apply Hcompat; [now left|exact Fk]. }
+      rewrite Hd'. cbn [bind]. apply Hrest. intros k' Hk'.
+      destruct d' as [v|]; cbn [put]; [|reflexivity].
+      rewrite lookup_set_entry. destruct (bytes_eqb k' k) eqn:E; [|reflexivity].
+      apply bytes_eqb_eq in E. contradiction.
+  Qed.
+
+  Theorem copy_node_succeeds src : succeeds src.
+  Proof.
+    induction src as [d| |es IH] using node_ind'; intros HW ign dst Hcp Hign.
+    - cbn [copy_node]. fold (copy_file chunk d). rewrite copy_file_id by exact Hc.
+      destruct dst as [[| |]|]; try discriminate; eexists; reflexivity.
+    - destruct Hign as [->|H]; [|contradiction]. now exists dst.
+    - apply wf_dir in HW. destruct HW as [HN HW]. cbn [copy_node].
+      destruct dst as [[d|des|]|]; try discriminate; cbn [bind].
+      + destruct (copy_entries_succeeds es IH HW HN des des) as (des' & E); [reflexivity| |].
+        * exact (compat_dir es des Hcp).
+        * rewrite E. now eexists.
+      + destruct (copy_entries_succeeds es IH HW HN [] []) as (des' & E); [reflexivity| |].
+        * intros k c _ _. apply compat_None.
+        * rewrite E. now eexists.
+  Qed.
+End Compat.
+
+Theorem upload_existing_succeeds f chunk ign t dst : 1 <= chunk -> wf_tree t = true -> t <> Special ->
+  compat f t dst = true -> exists w', upload f chunk ign {| at_local := Some t; at_remote := dst |} = Ok w'.
+Proof.
+  intros Hc HW HS Hcp. unfold upload, transfer. cbn -[copy_node std_body].
+  destruct (copy_node_succeeds f chunk Hc t HW ign dst Hcp (or_intror HS)) as (r & ->). cbn [bind]. now eexists.
+Qed.
